@@ -16,7 +16,12 @@ def analyse(pid: str, repo_root: str, tier="quick", seed=0, quiet=False) -> Chec
     mod = importlib.import_module(f"sa.props.{pid.lower()}")
     repo = Repo(repo_root)
     chk = Check(pid, tier, seed, repo_root, quiet=quiet)
-    mod.run(repo, chk)
+    try:
+        mod.run(repo, chk)
+    except AnalysisError as e:
+        # an anchor vanished part-way: violations found so far are still
+        # reported (exit 1); without any, the run is analysis-broken (exit 2)
+        chk.anchor_error = str(e)
     chk.extra["units_parsed"] = repo.units_parsed
     return chk
 
